@@ -7,4 +7,5 @@ CONSTANTS
   BinAPats <- MC_QuickBinAPats
   BinBPats <- MC_QuickBinBPats
   Scalars <- MC_Scalars
+  TwoFull = FALSE
 INVARIANTS TypeOK Contract Abstraction Emit
